@@ -96,3 +96,27 @@ package routing
 //@   site call Bandwidth: assert ret(EligibleToForward)
 //@   site call MayAddOutgoingHtlc: assert ret(EligibleToForward)
 //@   site call EligibleToForward: assert retn(getLink, 1) == nil
+//@
+//@ // ---- unifier construction: only permitted local channels, the edge's own policy/capacity/fee, one unifier per from-node
+//@ func (u *nodeEdgeUnifier) addPolicy
+//@   props C19
+//@   loop * havoc
+//@   site call newUnifiedEdge: assert arg(policy) == edge && arg(capacity) == capacity && arg(hopPayloadSizeFn) == hopPayloadSizeFn &&
+//@        arg(blindedPayment) == blindedPayment && hopPayloadSizeFn != nil &&
+//@        (u.useInboundFees ==> arg(inboundFees).Base == entry(inboundFee).Base && arg(inboundFees).Rate == entry(inboundFee).Rate) &&
+//@        (!u.useInboundFees ==> arg(inboundFees).Base == 0 && arg(inboundFees).Rate == 0) &&
+//@        ((fromNode == u.sourceNode && u.outChanRestr != nil) ==> has(u.outChanRestr, edge.ChannelID))
+//@   site store edgeUnifier.localChan: assert value == (fromNode == u.sourceNode)
+//@   site mapupdate edgeUnifiers: assert arg(key) == fromNode
+//@   site lookup edgeUnifiers: assert arg(key) == fromNode
+//@
+//@ func (u *edgeUnifier) getEdge
+//@   props C19
+//@   requires nextOutFee <= 1<<62
+//@   site call getEdgeLocal: assert u.localChan && arg(netAmtReceived) == netAmtReceived && arg(bandwidthHints) == bandwidthHints && arg(nextOutFee) == nextOutFee
+//@   site call getEdgeNetwork: assert !u.localChan && arg(netAmtReceived) == netAmtReceived && arg(nextOutFee) == nextOutFee
+//@
+//@ func newUnifiedEdge
+//@   props C19
+//@   ensures result != nil && result.policy == policy && result.capacity == capacity && result.inboundFees.Base == inboundFees.Base &&
+//@           result.inboundFees.Rate == inboundFees.Rate && result.blindedPayment == blindedPayment
